@@ -133,7 +133,7 @@ func (p *provProfile) Run(s *Sim) {
 	p.e.Opts.BatchIdleDuration = time.Duration(1+ch.Pick("prov.idle", 3)) * time.Second
 	p.e.Opts.BatchMaxDuration = time.Duration(5+ch.Pick("prov.max", 10)) * time.Second
 	oldMax := provscheduling.MaxInstanceTypes
-	provscheduling.MaxInstanceTypes = []int{60, 3, 8, 600}[ch.Pick("prov.maxits", 4)]
+	provscheduling.MaxInstanceTypes = []int{60, 3, 8, 600, 3, 5}[ch.Pick("prov.maxits", 6)]
 	defer func() { provscheduling.MaxInstanceTypes = oldMax }()
 	provscheduling.VerifParallelize = p.parallelize
 	defer func() { provscheduling.VerifParallelize = nil }()
@@ -1430,6 +1430,10 @@ func (p *provProfile) checkTruncation(pi *passInfo, nc *v1.NodeClaim, pods []*co
 			if r.MinValues != nil {
 				return
 			}
+		}
+		// a pool with resource limits excludes the types that would breach what is left of them
+		if len(np.Spec.Limits) > 0 {
+			return
 		}
 		// the pool's own requirements (they may exclude instance types by name) apply to every candidate type
 		poolReqs.Spec.Requirements = np.Spec.Template.Spec.Requirements
